@@ -28,6 +28,15 @@ Definition is_consult (a : action) : bool := match a with AMw _ _ _ _ => true | 
 Definition spawn_id (a : action) : option nat :=
   match a with AMw i _ _ _ | AHandlerTask i | AUpload i _ _ => Some i | _ => None end.
 
+(* transport contract (DESIGN 3.2): no new outer read is delivered once the connection has been closed *)
+Fixpoint valid_reads (evs : list event) (o : obs) (closed : bool) : bool :=
+  match evs, o with
+  | e :: evs', (acts, _) :: o' =>
+      (match e with ERead _ => negb closed | _ => true end) &&
+      valid_reads evs' o' (closed || existsb (fun a => match a with AClose => true | _ => false end) acts)
+  | _, _ => true
+  end.
+
 (* the request line, if a complete one of admissible size was delivered *)
 Inductive line_status := LNone | LTooBig | LBadUtf8 | LLine (l : str) (rest : str).
 Definition request_line (d : str) : line_status :=
